@@ -2,6 +2,7 @@
 //!
 //! Ops (one self-contained request per line):
 //!   cm ty=n|s p=.. t=..            confusion matrix + all derived scores (usize / bool / String labels)
+//!   cms lp=.. p=.. t=..            the same through a `CountedTargets` receiver with a stale label cache `lp`
 //!   roc s=<f32 bits> y=0/1         ROC curve, thresholds, AUC
 //!   logloss s=<f32 bits> y=0/1     log-loss (libm `ln`: tolerant token)
 //!   reg  w=64|32 p=.. a=.. b=..    regression scores on lattice inputs, compared bit for bit
@@ -90,14 +91,19 @@ impl CmObs {
 }
 
 fn observe_cm<L: CmLabel>(form: usize, pred: &[L], truth: &[L], tok: &dyn Fn(&L) -> String) -> Result<CmObs, String> {
-    let cm = match forms::call_cm(form, pred, truth) {
+    observe_cm_of(forms::call_cm(form, pred, truth), pred, truth, &[], tok)
+}
+
+/// `extra`: labels that may appear among the members without occurring in `pred` or `truth`
+fn observe_cm_of<L: CmLabel>(res: linfa::error::Result<ConfusionMatrix<L>>, pred: &[L], truth: &[L], extra: &[L], tok: &dyn Fn(&L) -> String) -> Result<CmObs, String> {
+    let cm = match res {
         Ok(cm) => cm,
         Err(linfa::Error::MismatchedShapes(_, _)) => return Err("err MismatchedShapes".into()),
         Err(e) => return Err(format!("err {:?}", e)),
     };
     let (disp, cells) = parse_cm(&cm);
     // map the displayed member back to the canonical token of the label
-    let mut all: Vec<&L> = pred.iter().chain(truth.iter()).collect();
+    let mut all: Vec<&L> = pred.iter().chain(truth.iter()).chain(extra.iter()).collect();
     all.sort();
     all.dedup();
     let members: Vec<String> = disp.iter().map(|d| all.iter().find(|l| format!("{}", l) == *d).map(|l| tok(l)).unwrap_or_else(|| format!("?{}", d))).collect();
@@ -257,6 +263,81 @@ fn op_cm<L: CmLabel>(em: &mut Em, form: usize, ty: &str, kind: &str, pred: Vec<L
     }
     if valid {
         tally(em, &okkey, false);
+    }
+}
+
+/// op `cms lp=.. p=.. t=..`: a `CountedTargets` receiver whose cached label counts are stale (taken
+/// on `cached`, targets overwritten afterwards).  The matrix is built over the cached label set and the
+/// truth's labels, and samples whose predicted label is in neither are skipped silently.  The
+/// statement speaks of the label sets of the two vectors, so only the requests whose cache has exactly
+/// the labels of `pred` are inside it (full oracle); the others are compared with the model
+/// (`confusionWith`, theorem `confusion_with_labels_sum`) and checked against a direct count.
+fn op_cm_stale(em: &mut Em, cached: Vec<usize>, pred: Vec<usize>, truth: Vec<usize>) {
+    let tok = |x: &usize| x.to_string();
+    let mut lp: Vec<usize> = cached.clone();
+    lp.sort();
+    lp.dedup();
+    let pset: BTreeSet<usize> = pred.iter().copied().collect();
+    let lset: BTreeSet<usize> = lp.iter().copied().collect();
+    let kind = if pset == lset { "same" } else if pset.is_subset(&lset) { "covering" } else { "dropping" };
+    em.count(&format!("cms:{}", kind));
+    let op = format!("cms lp={} p={} t={}", list(lp.iter(), |x| x.to_string()), list(pred.iter(), |x| x.to_string()), list(truth.iter(), |x| x.to_string()));
+    let class = format!("cms:cache={}", kind);
+    let same = kind == "same";
+    let body = |ctx: &mut Ctx| {
+        let o = match observe_cm_of(forms::call_cm_stale(&cached, &pred, &truth), &pred, &truth, &lp, &tok) {
+            Ok(o) => o,
+            Err(e) => return e,
+        };
+        if same {
+            oracle_cm(ctx, "cms", &pred, &truth, &tok, &o);
+        } else {
+            let mut cs: Vec<usize> = lset.iter().copied().chain(truth.iter().copied()).collect::<BTreeSet<usize>>().into_iter().collect();
+            if cs.len() == 2 {
+                cs.reverse();
+            }
+            let want_members: Vec<String> = cs.iter().map(|l| l.to_string()).collect();
+            ctx.require(o.members == want_members, "members_sorted_union", &class, || format!("members {:?}, want {:?} (cached labels {:?})", o.members, want_members, lp));
+            let want: Vec<Vec<u64>> = cs.iter().map(|a| cs.iter().map(|b| pred.iter().zip(truth.iter()).filter(|(p, t)| *p == a && *t == b).count() as u64).collect()).collect();
+            ctx.require(o.cells == want, "cells_count_pairs", &class, || format!("cells {:?}, want {:?}", o.cells, want));
+            let kept = pred.iter().filter(|p| cs.contains(p)).count() as u64;
+            let s: u64 = o.cells.iter().flatten().sum();
+            ctx.require(s == kept, "cells_sum_known_labels", &class, || format!("cells sum to {}, {} samples carry a known label", s, kept));
+        }
+        o.line()
+    };
+    if same {
+        em.case_valid(op, &class, body)
+    } else {
+        em.case(op, body)
+    }
+    tally(em, &class, false);
+}
+
+fn gen_cm_stale(em: &mut Em, rng: &mut Rng) {
+    let reps = if em.thorough() { 3000 } else { 300 };
+    for r in 0..reps {
+        let (pred, truth) = random_cm_pair(rng);
+        let n = pred.len();
+        let a = pred.iter().chain(truth.iter()).copied().max().unwrap_or(0) + 2;
+        let mut cached = pred.clone();
+        match r % 3 {
+            0 => rng.shuffle(&mut cached), // same label set
+            1 => {
+                // a label of the data is missing from the cache: overwrite every occurrence of one label
+                let gone = pred[rng.below(n)];
+                let by = rng.below(a);
+                cached.iter_mut().for_each(|v| if *v == gone { *v = by });
+            }
+            _ => {
+                // further labels in the cache
+                for _ in 0..(1 + rng.below(3)) {
+                    let i = rng.below(n);
+                    cached[i] = rng.below(a);
+                }
+            }
+        }
+        op_cm_stale(em, cached, pred, truth);
     }
 }
 
@@ -1308,6 +1389,9 @@ fn floors(em: &mut Em) {
     for f in 1..forms::CM_FORMS {
         add(&[&format!("cmf:form={}", forms::CM_FORM_NAMES[f])], 150);
     }
+    add(&["cms:same"], 60);
+    add(&["cms:covering"], 30);
+    add(&["cms:dropping"], 30);
     add(&["roc:lowest_score_zero"], 1000);
     add(&["roc:lowest_score_positive"], 300);
     add(&["roc:tied_scores"], 1000);
@@ -1362,6 +1446,7 @@ fn floors(em: &mut Em) {
 pub fn run(em: &mut Em, rng: &mut Rng) {
     gen_cm(em, rng);
     gen_cm_forms(em, rng);
+    gen_cm_stale(em, rng);
     gen_roc(em, rng);
     gen_logloss(em, rng);
     gen_binary_forms(em, rng);
